@@ -15,7 +15,8 @@ RULE = (
     "negative numbers, insertion-code runs, alternate-location groups with distinct occupancies, hetero groups, "
     "optionally one planted pair of atoms 0.1-0.4 A apart) emitted by the harness as PDB and as mmCIF with '?' and "
     "with '.' as null marker (and, for multi-model tables, as mmCIF whose rows are ordered polymer-first / residue by "
-    "residue across models / models reversed, so that a model's rows are not contiguous), read with every model argument in {None} U models present; (b) corpus files (incl. the "
+    "residue across models / models reversed, so that a model's rows are not contiguous; and as an mmCIF *dialect*: optional items left out, item order "
+    "permuted, residues identified by author items only or by label items only), read with every model argument in {None} U models present; (b) corpus files (incl. the "
     "NMR ensembles and the altloc files) decoded independently by the harness's column slicer / CIF tokenizer, read "
     "with model None and each of the first models. Oracle: expected atom list of the requested model = per (residue "
     "identity, atom name) a copy of maximal occupancy, of an isolated pair closer than 0.5 A exactly one of maximal "
@@ -282,6 +283,32 @@ def oracle_table(case):
         for mreq in [None] + models:
             s3 = read_text(text, ext, mreq)
             out += compare(s3, atoms, mreq, tag.replace("?", "-q").replace(".", "-dot"))
+    dia = case.get("dialect")
+    if dia:
+        # mmCIF fixes neither the item order nor the presence of optional items: leave some out, permute the rest,
+        # identify residues by author items only / label items only
+        atoms4 = [dict(a) for a in atoms]
+        drop = set(dia.get("drop", []))
+        if len(models) > 1:
+            drop.discard("pdbx_PDB_model_num")
+        if any(a["icode"] for a in atoms4):
+            drop.discard("pdbx_PDB_ins_code")
+        ident = dia.get("identity", "both")
+        if ident == "label" and not any(a["icode"] for a in atoms4):
+            drop |= {"auth_seq_id", "auth_asym_id", "auth_comp_id", "pdbx_PDB_ins_code"}
+            exp_atoms = atomtab.label_view(atoms4)
+        else:
+            exp_atoms = atoms4
+            if ident == "auth":
+                drop |= {"label_seq_id", "label_asym_id", "label_comp_id"}
+                drop.discard("auth_comp_id")
+        if "occupancy" in drop:
+            for a in exp_atoms:
+                a["occ"] = None
+        text = atomtab.emit_cif(atoms4, "?", dialect={"drop": sorted(drop), "order": dia.get("order")})
+        for mreq in [None] + (models if "pdbx_PDB_model_num" not in drop else []):
+            s3 = read_text(text, "cif", mreq)
+            out += compare(s3, exp_atoms, mreq, "cif-dialect")
     if case.get("row_order") and len(models) >= 2:
         # the atom_site loop has no ordering constraint: rows of one model need not be contiguous. Residues stay
         # contiguous within their model; the expectation is computed from the rows in the order written.
@@ -355,6 +382,11 @@ def classify(case):
         labs.append("absent-occupancy")
     if case.get("row_order") and len({a["model"] for a in atoms}) >= 2:
         labs.append("cif-rows-" + case["row_order"])
+    if case.get("dialect"):
+        labs.append("cif-dialect")
+        labs.append("cif-identity-" + case["dialect"].get("identity", "both"))
+        if case["dialect"].get("order") is not None:
+            labs.append("cif-items-permuted")
     return bool(set(labs) - {"hetatm"}), labs
 
 
@@ -363,9 +395,16 @@ def st_cases():
 
     return st.fixed_dictionaries({"atoms": atomtab.st_tables(clashes=True, modified=True),
                                   "missing_occ": st.sampled_from(["", "", "?", "."]),
-                                  "row_order": st.sampled_from(["", "polymer-first", "by-residue", "models-reversed"])})
+                                  "row_order": st.sampled_from(["", "polymer-first", "by-residue", "models-reversed"]),
+                                  "dialect": st.one_of(st.none(), st.fixed_dictionaries({
+                                      "drop": st.lists(st.sampled_from(OPTIONAL_ITEMS), max_size=5, unique=True),
+                                      "order": st.one_of(st.none(), st.integers(0, 10 ** 6)),
+                                      "identity": st.sampled_from(["both", "both", "auth", "label"])}))})
 
 
+# items of atom_site the residue-level reader documents as optional (it has a default or a fallback for each)
+OPTIONAL_ITEMS = ["group_PDB", "id", "type_symbol", "label_alt_id", "label_entity_id", "occupancy", "B_iso_or_equiv",
+                  "pdbx_formal_charge", "auth_comp_id", "auth_atom_id", "pdbx_PDB_ins_code", "pdbx_PDB_model_num"]
 NMR = ["1JJP.cif", "6RS3.cif", "2HY9.cif"]
 ALT = ["4qln.cif", "4qln.pdb", "488d.pdb"]
 
